@@ -286,11 +286,11 @@ func min(a, b int) int {
 }
 
 func init() {
-	vf.Register(vf.Sub[Case]{Name: "dense-under-assumptions", Quick: 5000, Thorough: 150000, Gen: genDense, Check: check, Floor: 0.5,
+	vf.Register(vf.Sub[Case]{Name: "dense-under-assumptions", Quick: 5000, Thorough: 75000, Gen: genDense, Check: check, Floor: 0.5,
 		Rule: "dense 3-SAT (ratio 4.5..6) over 7..14 variables with 2..5 unit clauses, clauses shuffled, methods MUS|MUSDeletion|MUSMaxSat (the ones that solve under assumptions with one hot solver), same oracle and non-triviality rule as mus"})
-	vf.Register(vf.Sub[Case]{Name: "duplicate-literals", Quick: 2500, Thorough: 40000, Gen: genDup, Check: check, Floor: 0.2,
+	vf.Register(vf.Sub[Case]{Name: "duplicate-literals", Quick: 2500, Thorough: 20000, Gen: genDup, Check: check, Floor: 0.2,
 		Rule: "the families of mus with a literal repeated in a third of the clauses (clauses made of one literal written several times included), 0..2 tautological clauses and, in a fifth of the cases, 1..2 empty clauses; same oracle"})
-	vf.Register(vf.Sub[Case]{Name: "mus", Quick: 2500, Thorough: 120000, Gen: genCase, Check: check, Floor: 0.25,
+	vf.Register(vf.Sub[Case]{Name: "mus", Quick: 2500, Thorough: 60000, Gen: genCase, Check: check, Floor: 0.25,
 		Rule: "CNF n<=10 via explain.ParseCNF, clauses over distinct variables: random (about 40% satisfiable), one core + padding, two disjoint cores, two overlapping cores, pigeonhole 3->2 / 4->3, repeated clauses, trivially conflicting units, dense 3-SAT (n 7..13) with unit clauses; in a third of the cases the clauses handed to the library are sub-slices of one array, which must stay untouched; method MUS|MUSDeletion|MUSInsertion|MUSMaxSat called twice on the same receiver; oracle = truth table: result is a sub-multiset of the input, unsatisfiable, every single-clause removal satisfiable, NbClauses consistent; satisfiable input => error and nil; receiver (Clauses deep, NbVars, NbClauses) unchanged; non-trivial = unsat input with >=2 clauses more than the returned MUS"})
 }
 
